@@ -19,3 +19,36 @@ package types
 //@   ensures old(bigv[max.i]) > 0 ==> 0 <= bigv[index.i] && bigv[index.i] < old(bigv[max.i])
 //@   ensures bigv[index.i] == beval(bytes(hash[:8])) % old(bigv[max.i])
 //@   ensures forall p int {bigv[p]} :: p <= old(ref(max.i)) ==> bigv[p] == old(bigv[p])
+
+// ---- C33: session node selection ---------------------------------------------------------
+//@ func NodeHasChain
+//@   trusted linear search of the node's chain list
+//@   pure_fn
+//@   ensures result == vHasChain(node, chain)
+
+//@ func (SessionNodes).Contains
+//@   props C33,C35
+//@   panics_never
+//@   modifies nothing
+//@   ensures result == (addr != nil && (exists j int :: 0 <= j && j < len(sn) && sn[j] != nil && addrEq(bytes(sn[j]), bytes(addr))))
+//@   loop 0 invariant 0 - 1 <= rangeindex && rangeindex < len(sn) && addr != nil
+//@   loop 0 invariant forall j int :: 0 <= j && j <= rangeindex ==> !(sn[j] != nil && addrEq(bytes(sn[j]), bytes(addr)))
+
+// eligible(a): at the reference context the address resolves to a node that is not jailed,
+// serves the chain, and (when the limit is enforced) is within the chain limit
+//@ pure eligible(c Iface, chain Str, a Bytes, enforce bool, maxc int) bool = valAt(c, a) != nil && !vJailed(valAt(c, a)) && vHasChain(valAt(c, a), chain) && (enforce ==> vNumChains(valAt(c, a)) <= maxc)
+//@ pure maxchOn(h int) bool = (global(codec.UpgradeFeatureMap)["MAXCH"] != 0 && h >= global(codec.UpgradeFeatureMap)["MAXCH"]) || global(codec.TestMode) <= 0 - 3
+
+//@ func NewSessionNodes
+//@   props C33
+//@   requires sessionNodesCount >= 1
+//@   modifies all
+//@   ensures [count] err == nil ==> len(sessionNodes) == sessionNodesCount
+//@   ensures [distinct] err == nil ==> forall j int, k int :: 0 <= j && j < k && k < len(sessionNodes) ==> bytes(sessionNodes[j]) != bytes(sessionNodes[k])
+//@   ensures [staked-at-session-start] err == nil ==> forall j int :: 0 <= j && j < len(sessionNodes) ==> stakedFor(sessionCtx, chain, bytes(sessionNodes[j]))
+//@   ensures [eligible-at-reference] err == nil ==> forall j int :: 0 <= j && j < len(sessionNodes) ==> eligible(ctx, chain, bytes(sessionNodes[j]), old(maxchOn(ctxHeight(ctx))), posMaxChains(sessionCtx))
+//@   loop 0 invariant [shape] 0 <= numOfNodes && numOfNodes < sessionNodesCount && len(sessionNodes) == sessionNodesCount && off(sessionNodes) == 0 && sessionNodes != nil && totalNodes == len(nodesAddrs) && ref(nodesAddrs) < ref(sessionNodes) && isEnforceMaxChains == old(maxchOn(ctxHeight(ctx))) && nodeMaxChains == posMaxChains(sessionCtx)
+//@   loop 0 invariant [pool] forall q int :: 0 <= q && q < len(nodesAddrs) ==> nodesAddrs[q] != nil && len(nodesAddrs[q]) == 20 && stakedFor(sessionCtx, chain, bytes(nodesAddrs[q]))
+//@   loop 0 invariant [chosen] forall j int :: 0 <= j && j < numOfNodes ==> sessionNodes[j] != nil && len(sessionNodes[j]) == 20 && stakedFor(sessionCtx, chain, bytes(sessionNodes[j])) && eligible(ctx, chain, bytes(sessionNodes[j]), isEnforceMaxChains, nodeMaxChains)
+//@   loop 0 invariant [distinct] forall j int, k int :: 0 <= j && j < k && k < numOfNodes ==> bytes(sessionNodes[j]) != bytes(sessionNodes[k])
+//@   loop 0 invariant [unfilled] forall j int :: numOfNodes <= j && j < len(sessionNodes) ==> sessionNodes[j] == nil
